@@ -37,6 +37,7 @@ type Item struct {
 	Via   string `json:"via,omitempty"`   // write: "" tx.Create(&row) | "exec" tx.Exec("INSERT ..") | "kept" through ONE chained handle h := tx.Model(&Marker{}) kept by the block body and reused for all its kept writes | write and read: "sess" tx.Session(&Session{}) | "sess_prep" tx.Session(&Session{PrepareStmt: true}) | "ctx" tx.WithContext(ctx): a handle derived from the block's handle for this one call
 	Empty bool   `json:"empty,omitempty"` // kept write: when it creates the handle, its first use is an update with an empty change set (no SQL)
 	Rcv   bool   `json:"rcv,omitempty"`   // child: the call is wrapped in a recover(); a panic of the child is swallowed
+	Cx    bool   `json:"cx,omitempty"`    // child: called as tx.WithContext(ctx).Transaction(..) with a fresh cancellable ctx; item "cancel" cancels the innermost such ctx
 	B     *Blk   `json:"b,omitempty"`     // child
 }
 
@@ -56,6 +57,8 @@ type Cfg struct {
 	// db.Session(&Session{PrepareStmt, DisableNestedTransaction, SkipDefaultTransaction}) | "both"
 	Via  string `json:"via,omitempty"`
 	NoSP bool   `json:"no_savepoints,omitempty"` // the dialector does not implement SavePoint / RollbackTo
+	Wrap bool   `json:"wrapped_pool,omitempty"`  // gorm runs on a ConnPoolBeginner whose transactions are wrappers around *sql.Tx
+	Soft bool   `json:"soft_commit,omitempty"`   // (Wrap) the wrapper's Commit fails by itself: nothing reaches database/sql, the transaction stays open
 }
 
 type Input struct {
@@ -74,7 +77,7 @@ type Input struct {
 
 // Cls classifies an error or panic. K: nil | err | panic.
 // Code: >=0 the harness' own sentinel; -1 injected fault; -2 sql.ErrTxDone; -3 gorm.ErrInvalidTransaction;
-// -4 SQLite "no such savepoint"; -5 gorm.ErrUnsupportedDriver; -9 anything else. W: the error wraps another one (it is not the sentinel itself).
+// -4 SQLite "no such savepoint"; -5 gorm.ErrUnsupportedDriver; -6 context.Canceled; -9 anything else. W: the error wraps another one (it is not the sentinel itself).
 type Cls struct {
 	K    string `json:"k"`
 	Code int64  `json:"code,omitempty"`
@@ -83,13 +86,14 @@ type Cls struct {
 
 // Obs is one node of the observed call tree.
 type Obs struct {
-	K       string `json:"k"` // write | read | child | save | rbto
-	M       int64  `json:"m,omitempty"`
-	Ret     Cls    `json:"ret"`               // what the call returned (child: what Transaction returned / panicked with)
-	N       int64  `json:"n,omitempty"`       // read: the count seen
-	Entered bool   `json:"entered,omitempty"` // child: the block function was called
-	Exit    Cls    `json:"exit"`              // child: how the block function ended
-	Body    []Obs  `json:"body,omitempty"`
+	K         string `json:"k"` // write | read | child | save | rbto
+	M         int64  `json:"m,omitempty"`
+	Ret       Cls    `json:"ret"`                 // what the call returned (child: what Transaction returned / panicked with)
+	N         int64  `json:"n,omitempty"`         // read: the count seen
+	Entered   bool   `json:"entered,omitempty"`   // child: the block function was called
+	Cancelled bool   `json:"cancelled,omitempty"` // child with its own context: that context was cancelled inside it
+	Exit      Cls    `json:"exit"`                // child: how the block function ended
+	Body      []Obs  `json:"body,omitempty"`
 }
 
 type Op struct {
@@ -148,7 +152,39 @@ func (n noSavePoints) Explain(sql string, vars ...interface{}) string {
 	return n.d.Explain(sql, vars...)
 }
 
+// wrapPool is a gorm.ConnPool around *sql.DB whose BeginTx returns a gorm.ConnPool wrapping the
+// *sql.Tx (a ConnPoolBeginner, the documented way to wrap transactions: tests/connpool_test.go).
+// While failCommit is set, the wrapper's Commit fails by itself, before it reaches database/sql:
+// the transaction stays open until somebody rolls it back.
+type wrapPool struct {
+	*sql.DB
+	failCommit bool
+}
+
+type wrapTx struct {
+	*sql.Tx
+	pool *wrapPool
+}
+
+func (p *wrapPool) BeginTx(ctx context.Context, opts *sql.TxOptions) (gorm.ConnPool, error) {
+	tx, err := p.DB.BeginTx(ctx, opts)
+	if err != nil {
+		return nil, err
+	}
+	return &wrapTx{Tx: tx, pool: p}, nil
+}
+
+func (p *wrapPool) GetDBConn() (*sql.DB, error) { return p.DB, nil }
+
+func (t *wrapTx) Commit() error {
+	if t.pool.failCommit {
+		return errFault
+	}
+	return t.Tx.Commit()
+}
+
 type env struct {
+	wrap  *wrapPool
 	db    *gorm.DB
 	rec   *recdrv.Recorder
 	sqlDB *sql.DB
@@ -179,17 +215,23 @@ func getEnv(c Cfg) *env {
 		return e
 	}
 	envGen++
-	name := fmt.Sprintf("db_p%v_n%v_s%v_r%v_%s_%v_%d.sqlite", c.Prep, c.NoNest, c.SkipDef, c.Report, c.Via, c.NoSP, envGen)
+	name := fmt.Sprintf("db_p%v_n%v_s%v_r%v_%s_%s_%d.sqlite", c.Prep, c.NoNest, c.SkipDef, c.Report, c.Via, fmt.Sprint(c.NoSP, c.Wrap, c.Soft), envGen)
 	path := filepath.Join(workDir, name)
 	os.Remove(path)
 	dsn := "file:" + path + "?_busy_timeout=300&_synchronous=0"
 	sqlDB, rec := recdrv.Open(dsn)
-	var dial gorm.Dialector = sqlite.Dialector{Conn: sqlDB}
+	var conn gorm.ConnPool = sqlDB
+	var wp *wrapPool
+	if c.Wrap || c.Soft {
+		wp = &wrapPool{DB: sqlDB}
+		conn = wp
+	}
+	var dial gorm.Dialector = sqlite.Dialector{Conn: conn}
 	if c.Report {
-		dial = reporting{sqlite.Dialector{Conn: sqlDB}}
+		dial = reporting{sqlite.Dialector{Conn: conn}}
 	}
 	if c.NoSP {
-		dial = noSavePoints{sqlite.Dialector{Conn: sqlDB}}
+		dial = noSavePoints{sqlite.Dialector{Conn: conn}}
 	}
 	gc := &gorm.Config{Logger: logger.Discard}
 	if c.Via != "session" {
@@ -209,7 +251,10 @@ func getEnv(c Cfg) *env {
 	lib.Must(db.Model(&Marker{}).Count(&warm).Error)
 	fresh, err := sql.Open("c04fresh", dsn)
 	lib.Must(err)
-	e := &env{db: db, rec: rec, sqlDB: sqlDB, fresh: fresh}
+	if wp != nil {
+		wp.failCommit = c.Soft // from now on (the set-up above needed working commits)
+	}
+	e := &env{wrap: wp, db: db, rec: rec, sqlDB: sqlDB, fresh: fresh}
 	envs[c] = e
 	return e
 }
@@ -236,6 +281,8 @@ func classify(err error) Cls {
 		c.Code = -4
 	case errors.Is(err, gorm.ErrUnsupportedDriver):
 		c.Code = -5
+	case errors.Is(err, context.Canceled):
+		c.Code = -6
 	}
 	return c
 }
@@ -245,6 +292,12 @@ func classify(err error) Cls {
 type runner struct {
 	curPanic int64 // id of the panic in flight
 	notes    []string
+	cancels  []cxScope // the enclosing blocks that run under their own context, innermost last
+}
+
+type cxScope struct {
+	cancel context.CancelFunc
+	obs    *Obs
 }
 
 // derive: the handle a call is made on — the block's handle itself or a derivation of it.
@@ -255,7 +308,7 @@ func derive(h *gorm.DB, via string) *gorm.DB {
 	case "sess_prep":
 		return h.Session(&gorm.Session{PrepareStmt: true})
 	case "ctx":
-		return h.WithContext(context.Background())
+		return h.WithContext(h.Statement.Context) // the same context, set again
 	}
 	return h
 }
@@ -320,6 +373,11 @@ func (r *runner) body(h *gorm.DB, b *Blk, log *[]Obs) error {
 			if res.Error != nil {
 				return res.Error
 			}
+		case "cancel": // cancel() of the innermost enclosing block that has its own context
+			if n := len(r.cancels); n > 0 {
+				r.cancels[n-1].cancel()
+				r.cancels[n-1].obs.Cancelled = true
+			}
 		case "child":
 			o := Obs{K: "child"}
 			recovered := false
@@ -343,7 +401,14 @@ func (r *runner) body(h *gorm.DB, b *Blk, log *[]Obs) error {
 						*log = append(*log, o)
 					}
 				}()
-				err = h.Transaction(func(tx *gorm.DB) error { return r.fc(tx, it.B, &o) })
+				recv := h
+				if it.Cx { // the nested block runs under its own context
+					ctx, cancel := context.WithCancel(context.Background())
+					r.cancels = append(r.cancels, cxScope{cancel, &o})
+					defer func() { r.cancels = r.cancels[:len(r.cancels)-1]; cancel() }()
+					recv = h.WithContext(ctx)
+				}
+				err = recv.Transaction(func(tx *gorm.DB) error { return r.fc(tx, it.B, &o) })
 				returned = true
 				return
 			}()
@@ -479,8 +544,11 @@ func run(in Input) Observed {
 			if err := r.fc(tx, &in.Body, &top); err != nil {
 				tx.Rollback()
 				obs.Ret = classify(err)
+			} else if cerr := tx.Commit().Error; cerr != nil {
+				obs.Ret = classify(cerr)
+				tx.Rollback() // a failed Commit may have left the transaction open
 			} else {
-				obs.Ret = classify(tx.Commit().Error)
+				obs.Ret = classify(nil)
 			}
 			for _, x := range in.Extra {
 				if x == "commit" {
@@ -554,6 +622,8 @@ func codeTerm(c int64) string {
 		return "ENoSp"
 	case -5:
 		return "EUnsupported"
+	case -6:
+		return "ECanceled"
 	case -9:
 		return "EOther"
 	}
@@ -582,7 +652,9 @@ func progTerm(b *Blk) string {
 		case "rbto":
 			out = lib.App("RbTo", lib.Z(it.M), out)
 		case "child":
-			out = lib.App("Child", progTerm(it.B), lib.Bool(it.Chk), lib.Bool(it.Rcv), out)
+			out = lib.App("Child", progTerm(it.B), lib.Bool(it.Chk), lib.Bool(it.Rcv), lib.Bool(it.Cx), out)
+		case "cancel":
+			out = lib.App("Cancel", out)
 		}
 	}
 	return out
@@ -616,7 +688,7 @@ func term(in Input, o Observed) string {
 	stray := lib.ListOf(in.Stray, func(s string) string { return lib.Bool(s == "commit") })
 	return lib.App("mk_case",
 		lib.Bool(in.Top == "manual"), progTerm(&in.Body), extra, stray,
-		lib.App("mk_cfg", lib.Bool(in.Cfg.Prep), lib.Bool(in.Cfg.NoNest), lib.Bool(in.Cfg.SkipDef), lib.Bool(in.Cfg.Report), lib.Bool(in.Cfg.NoSP)),
+		lib.App("mk_cfg", lib.Bool(in.Cfg.Prep), lib.Bool(in.Cfg.NoNest), lib.Bool(in.Cfg.SkipDef), lib.Bool(in.Cfg.Report), lib.Bool(in.Cfg.NoSP), lib.Bool(in.Cfg.Wrap || in.Cfg.Soft), lib.Bool(in.Cfg.Soft)),
 		fault,
 		lib.App("OC", lib.Bool(o.Entered), lib.ListOf(o.Log, obsTerm), clsTerm(o.Exit), clsTerm(o.Ret)),
 		lib.ListOf(o.Extra, clsTerm), lib.ListOf(o.Stray, clsTerm),
@@ -626,6 +698,7 @@ func term(in Input, o Observed) string {
 // ---------------------------------------------------------------- generators
 
 type gen struct {
+	inCx   int // > 0: the block being generated runs under a cancellable context of its own or of an ancestor
 	r      *lib.Rng
 	marker int64
 	esent  int64
@@ -675,6 +748,10 @@ func (g *gen) blk(depth, maxDepth int, edge bool) Blk {
 	}
 	var saved []int64 // most recent first
 	for i := 0; i < n; i++ {
+		if g.inCx > 0 && r.Chance(1, 8) {
+			b.Items = append(b.Items, Item{K: "cancel"})
+			continue
+		}
 		switch c := r.Intn(20); {
 		case c < 7:
 			b.Items = append(b.Items, g.write())
@@ -682,8 +759,13 @@ func (g *gen) blk(depth, maxDepth int, edge bool) Blk {
 			b.Items = append(b.Items, Item{K: "read", Chk: r.Bool(), Via: lib.Pick(r, []string{"", "", "sess", "sess_prep", "ctx"})})
 		case c < 16:
 			if depth < maxDepth {
+				cx, was := r.Chance(1, 4), g.inCx
+				if cx {
+					g.inCx = 1
+				}
 				cb := g.blk(depth+1, maxDepth, edge)
-				it := Item{K: "child", B: &cb, Chk: r.Chance(1, 2), Rcv: r.Chance(1, 3)}
+				g.inCx = was
+				it := Item{K: "child", B: &cb, Chk: r.Chance(1, 2), Rcv: r.Chance(1, 3), Cx: cx}
 				if it.Rcv && r.Bool() { // recovered panics are only interesting when there is one
 					cb.Out, cb.E = "panic", g.esent%16
 					g.esent++
@@ -760,6 +842,12 @@ func shapeBlk(b *Blk, sb *strings.Builder) {
 		if it.Rcv {
 			sb.WriteByte('^')
 		}
+		if it.Cx {
+			sb.WriteByte('@')
+		}
+		if it.K == "cancel" {
+			sb.WriteByte('x')
+		}
 	}
 	sb.WriteString(b.Out[:1] + "}")
 }
@@ -780,11 +868,26 @@ func shape(in Input, o Observed) string {
 // nested block whose error the enclosing function ignores) was fixed in /repo by 1c49b86: such
 // inputs are ordinary members of the generated streams now; corpus/C04 keeps the original input.
 const sigStock = "sqlite-dialector-drops-savepoint-error"
+const sigCancel = "nested-rollback-under-cancelled-context"
+
+// cancelledFailing: some nested block that runs under its own context had that context cancelled
+// inside it and then failed (error or panic).
+func cancelledFailing(log []Obs) bool {
+	for _, o := range log {
+		if o.K == "child" && (o.Cancelled && o.Entered && o.Exit.K != "nil" && o.Exit.K != "" || cancelledFailing(o.Body)) {
+			return true
+		}
+	}
+	return false
+}
 
 // sig: known-finding signature. It depends only on the input: the kind of the driver operation
 // the fault index lands on and the position of that operation in the program are functions of
 // the input (read off the run, never off the verdict).
 func sig(in Input, o Observed) string {
+	if !in.Cfg.NoNest && !in.Cfg.NoSP && cancelledFailing(o.Log) {
+		return sigCancel
+	}
 	if in.Fault < 0 || in.Fault >= len(o.Ops) {
 		return ""
 	}
@@ -886,6 +989,11 @@ func main() {
 
 	add := func(kind string, in Input) Observed {
 		o := run(in)
+		if kind != "corpus" && kind != "replay" && sig(in, o) == sigCancel {
+			// the known finding stays out of the generated streams (corpus/C04 replays it)
+			out.Count("excluded_known_finding", sigCancel)
+			return o
+		}
 		w, c, d := countOps(&in.Body)
 		fk := "none"
 		if in.Fault >= 0 {
@@ -1020,6 +1128,10 @@ func main() {
 		}
 		in.Opts = r.Chance(1, 4)
 		in.Conn = r.Chance(1, 5)
+		if !in.Conn && r.Chance(1, 5) {
+			in.Cfg.Wrap = true
+			in.Cfg.Soft = r.Bool()
+		}
 		if r.Chance(1, 6) {
 			for k := r.Range(1, 2); k > 0; k-- {
 				in.Stray = append(in.Stray, lib.Pick(r, []string{"commit", "rollback"}))
